@@ -51,7 +51,8 @@ Lemma eval_expr_cap_rewrite e : eval_expr_cap getreg cap e = eval_expr getreg (c
 Proof.
   unfold eval_expr_cap, eval_expr, cap_expr, expr_fits.
   rewrite eval_ops_cap_spec by (cbn; lia). cbn [length].
-  destruct (Nat.leb (max_depth e 0) cap); reflexivity.
+  destruct (Nat.leb (max_depth e 0) cap); [reflexivity|].
+  destruct (expr_too_long e); destruct (expr_too_long [EBad]); reflexivity.
 Qed.
 
 Lemma eval_cfa_rule_cap_rewrite c : eval_cfa_rule_cap getreg cap c = eval_cfa_rule getreg (cap_cfa cap c).
